@@ -276,7 +276,7 @@ func c01Sinks(P *Program, f *Flow) []taintSink {
 
 func c01R1(c *Ctx) {
 	P := c.P
-	f := c01Flow(P)
+	f := c01FlowCached(P)
 	sources := c01Sources(P, f)
 	sinks := c01Sinks(P, f)
 	c.info("sources", len(sources))
@@ -325,7 +325,7 @@ func c01R1(c *Ctx) {
 
 func c01R2(c *Ctx) {
 	P := c.P
-	f := c01Flow(P)
+	f := c01FlowCached(P)
 	apply := P.Func("servitor/ansi", "Apply")
 	if len(apply.Params) != 2 {
 		broken("ansi.Apply no longer has (text, style) parameters")
